@@ -3,6 +3,7 @@ package consensus
 
 import (
 	cfg "github.com/lianxiangcloud/linkchain/config"
+	cmn "github.com/lianxiangcloud/linkchain/libs/common"
 	"github.com/lianxiangcloud/linkchain/libs/crypto"
 	tmevents "github.com/lianxiangcloud/linkchain/libs/events"
 	"github.com/lianxiangcloud/linkchain/libs/log"
@@ -88,7 +89,7 @@ func H_C17_round_changes_leave_the_chain_status_alone() {
 	verifAssert(c17cSnapshot(cs.Validators) == c17cSnapshot(ref), "round-proposer-is-the-status-set-rotated-by-the-rounds-walked")
 }
 
-func stub_c17c_hexstring(b []byte) string { return string(b) }
+func stub_c17c_hexstring(b cmn.HexBytes) string { return string(b) }
 
 // Who proposed the last block, and who failed to in round 0, is derived twice: by the proposer that
 // builds the evidence into its block (getLastFaultValsInfo) and by every validator that checks it
